@@ -361,7 +361,7 @@ def jobs(tier):
 
 
 BOUNDS = {
-    "quick": "sequential histories of 4 operations over {await, take placeholder, await placeholder later, del, getter fails next, await on a second instance} with and without lock type; all interleavings of 2..3 awaiting tasks with a getter suspending 1..2 times, with and without lock type (incl. suspending lock acquisition), awaiters sharing one placeholder, a deleting task (delete after 0..2 suspensions), one awaiter cancelled at its k-th suspension (k<=3)",
+    "quick": "sequential histories of 4 operations over {await, take placeholder, await placeholder later, del, getter fails next, await on a second instance} with and without lock type (length 3 also with awaitable values, falsy instances, read-only instances, getters failing with KeyError / AttributeError); all interleavings of 2..3 awaiting tasks with a getter suspending 1..2 times, with and without lock type (incl. suspending lock acquisition), awaiters sharing one placeholder, a deleting task (delete after 0..2 suspensions), one awaiter cancelled at its k-th suspension (k<=3)",
     "thorough": "histories of 5 operations; 3 tasks with 2 suspensions, 4 tasks with 1 suspension",
 }
 OUTSIDE = ["4 tasks with 2 suspensions and no lock (2.6*10^5 schedules)", "while a delete races a computation only value/liveness invariants are asserted (at-most-once is asserted per cached value when no delete intervenes)"]
